@@ -1,3 +1,5 @@
 import Cgm.Lemmas.AuditCmd
 import Cgm.Trace.Cover
+import Cgm.Trace.Cover2
 #audit_namespace Cg.Trace.Cover
+#audit_namespace Cg.Trace.Cover2
